@@ -156,8 +156,8 @@ def gen_history(r, fmt, chans, n, pattern, nframes, resets):
 def gen_cases(rng, tier, nostd_ok):
     items = []
     quick = tier == "quick"
-    n_hist = 300 if quick else 2400
-    budget = 170 if quick else 700           # frames x channels per history
+    n_hist = 300 if quick else 1400
+    budget = 170 if quick else 600           # frames x channels per history
     patterns = ["nominal", "nominal", "loudquiet", "loudquiet", "const", "edge", "large", "nominal"]
     for k in range(n_hist):
         r = rng.fork(f"h{k}")
@@ -428,9 +428,10 @@ def finish(rep, info, items, outl, codes, dist, nostd_ok, bad=()):
         "rule": "non-trivial = detector history with more than N pushes since new/reset (a non-zero square is evicted, the subtract-evicted path and the clamp matter) AND (loud-then-quiet pattern OR a reset strictly inside the history)",
         "samples": samples, "input_distribution": dist, "disagreements": len(bad),
         "error_bound": ("tolerance E (Dsp/RmsErr.v) is PROVED: c11_drift_bound" if drift_proved else
-                        "tolerance E (Dsp/RmsErr.v, the same Coq function evaluated in the verdict) is ARGUED, NOT PROVED for the IEEE run: "
-                        "c11_drift_bound_partial proves the one-step recurrence on reals from the standard per-operation rounding model; "
-                        "the lift to the Flocq run of the model is missing"),
+                        "tolerance E (Dsp/RmsErr.v, the same Coq function evaluated in the verdict) is ARGUED, NOT PROVED end to end for the IEEE run: "
+                        "c11_drift_bound_partial proves that one step of the executable recurrence (e_next, including its upward rounding) bounds the error of "
+                        "clamp(fl(fl(s + fl(x*x)) - fl(r))) under the standard rounding model |fl(t)-t| <= u|t| + eta of the three operations; "
+                        "the induction along the Flocq run of the model (discharging those hypotheses with Bmult/Bplus/Bminus_correct) is missing"),
         "explanation": "theorems: value/reset/clamp/adaptor on exact reals for all N, channel counts, histories; non-negative and non-NaN on IEEE floats under finiteness; no_std sqrt trick; tie: the model's executable definitions run by coqc on the same histories as dasp_rms in a std and a no_std configured build, all observations bit-exact, plus the error-bound verdict against exact dyadic recomputation",
     }
     return rep.finish("proof", cov, [
